@@ -135,7 +135,11 @@ def main():
                     lookups.append(root)
             key = "%s|%s" % (tree["id"], cfg["id"])
             try:
-                if cfg["call"] == "read_namespace":
+                if cfg["call"] == "read_files_dirs":
+                    extra = [spell(x, "abs-path", base, rng) for x in cfg.get("extra_lookups", [])]
+                    d, tr = pydsdl.read_files(cfg["files"], [root], lookups + extra)
+                    out["results"][key] = ["ok", [sig_type(pydsdl, t, base) for t in d], [sig_type(pydsdl, t, base) for t in tr]]
+                elif cfg["call"] == "read_namespace":
                     kw = {}
                     if "allow_collision" in cfg:
                         kw["allow_root_namespace_name_collision"] = cfg["allow_collision"]
